@@ -31,6 +31,7 @@ const (
 	PAtom                 // an SMT String variable (a symbolic string)
 	PInt                  // decimal rendering of an SMT Int term (strconv.Itoa)
 	PCell                 // one source character: symbolic rune of known byte width
+	PCode                 // an identifier-like symbolic string represented by an SMT Int code (see codes.go)
 )
 
 // Part is one segment of a rope.
@@ -144,6 +145,8 @@ func partTerm(p Part) string {
 		return itoaTerm(p.Lit)
 	case PCell:
 		return cellTerm(p)
+	case PCode:
+		panic(Inconclusive{"string term needed for the Int-coded atom " + p.Lit})
 	}
 	panic("partTerm")
 }
@@ -187,6 +190,8 @@ func partLenTerm(p Part) (int, string) {
 		return 0, fmt.Sprintf("(str.len %s)", p.Lit)
 	case PInt:
 		return 0, fmt.Sprintf("(str.len %s)", itoaTerm(p.Lit))
+	case PCode:
+		return 0, fmt.Sprintf("(clen %s)", p.Lit)
 	}
 	panic("partLenTerm")
 }
@@ -291,7 +296,7 @@ func ropeEq(x, y value) value {
 				n += len(p.Lit)
 			case PCell:
 				n += p.Width
-			case PInt:
+			case PInt, PCode:
 				n++
 			}
 		}
@@ -299,6 +304,9 @@ func ropeEq(x, y value) value {
 	}
 	if len(a) == 0 && minLen(b) > 0 || len(b) == 0 && minLen(a) > 0 {
 		return false
+	}
+	if r, ok := codeEq(a, b); ok {
+		return r
 	}
 	ta, tb := StrTerm(mkRope(a)), StrTerm(mkRope(b))
 	return SymBool{T: fmt.Sprintf("(= %s %s)", ta, tb)}
